@@ -2,7 +2,7 @@
 
 from __future__ import annotations
 
-from wdmc import fsops, wd
+from wdmc import fsops, inoapi, wd
 
 LEVEL = "model_checking"
 RULE = ("explicit-state BFS over drained states of (real tree, real InotifyObserver) with UNRESTRICTED pacing: all bursts "
@@ -17,8 +17,8 @@ ASSUMPTIONS = [
     "real Linux inotify of this kernel as environment, serialised by the scheduler",
     "lookup failures are produced by scheduling real operations between a notification and the library's follow-up "
     "call, not by mocking errno answers (an injected ENOENT on an entry that exists would be an inconsistent environment)",
-    "the API-call part of the statement is covered by the thread-error verdict of the C06 programs (checks/c06.py) and "
-    "by the inotify API family of C12",
+    "API part: start/schedule/unschedule/stop programs racing the real inotify and polling emitters (wdmc/inoapi.py), "
+    "verdict = no library thread dies with an exception, no descriptor misuse",
 ]
 
 
@@ -54,6 +54,16 @@ def run(ctx):
                            respect_pacing=False, cap=p["cap"], root_delete=p["root_delete"], label=f"graph{i}",
                            classify=fsops.classify)
     fsops.deviation_search(ctx, CHECKS, tier=ctx.tier, respect_pacing=False, root_delete=True, outside_ops=True)
+    # API part: calls racing the real emitters (code-level scheduling points in inotify.py / inotify_buffer.py / inotify_c.py)
+    ctx.instrumented = inoapi.instrument()
+    hs = [ApiH(f"c07 {n}", p) for n, p in inoapi.programs(ctx.tier)]
+    ctx.explore_many([(h, 1 if ctx.tier == "quick" else 2) for h in hs], cap=400_000 if ctx.tier == "quick" else 20_000_000,
+                     workers=fsops.fs_workers(ctx))
+
+
+class ApiH(inoapi.ApiHarness):
+    def check(self, res):
+        return inoapi.check_no_thread_error(self, res)
 
 
 def replay(rec):
